@@ -4,7 +4,7 @@ Import ListNotations.
 Local Open Scope N_scope.
 Notation I1 := syn_set1.
 Notation I2 := syn_set2.
-(* key sequences that fail on their own from the initial state; otherwise, when a per-element check fails,
+(* key sequences that fail on their own from the initial state, and
    two-element streams (key sequence or pass-through byte, then a key sequence) whose last event differs *)
 Definition enc_last (I : ScanImpl) (bs : list N) : list N := enc_sc (last_out I bs).
 Definition singles := filter (fun t : tok => considered I2 t &&
@@ -14,4 +14,4 @@ Eval vm_compute in ("cex"%string,
   ++
   map (fun x : stok * tok => (wit 0 (stok2 (fst x) ++ tok2 (snd x)) (stok1 (fst x) ++ tok1 (snd x)),
                               enc_last I2 (stok2 (fst x) ++ tok2 (snd x)), enc_last I1 (stok1 (fst x) ++ tok1 (snd x))))
-      (match cex_C13s I1 I2, cex_junk_C13s I1 I2 with [], [] => [] | _, _ => firstn 20 (cex_pairs_C13s I1 I2) end)).
+      (firstn 20 (cex_pairs_C13s I1 I2))).
